@@ -570,7 +570,7 @@ def vam_trigger(ctx):
                 if len(s_) > 1:
                     msgs.append(f"{len(s_)} VAMs for one report")
                 return bool(msgs), f"{tag}: " + "; ".join(msgs)
-            ctx.witness(f"{tag}-reach-send", I, z3.And(sent, z3.Not(exc)), vars=vars_, validate=lambda v, rp=replay: not rp(v)[0])
+            ctx.witness(f"{tag}-reach-send", I, z3.And(sent, z3.Not(exc), delta >= VC_.T_GENVAMMIN), vars=vars_, validate=lambda v, rp=replay: not rp(v)[0])
             ctx.prove(f"{tag}-no-exception", I, exc, vars=vars_, replay=replay)
             ctx.prove(f"{tag}-suppressed-when-passive-or-idle", I, z3.And(z3.Not(allowed), sent), vars=vars_, replay=replay)
             two = [z3.And(h.sent[i][0], h.sent[j][0]) for i in range(len(h.sent)) for j in range(i)]
